@@ -84,7 +84,9 @@ func cryptoMixExec(c *core.Ctx, in cryptoMix) {
 		names = append(names, s.String())
 	}
 	seq := strings.Join(names, "; ")
-	fail := func(k, w string) { c.FailCase("mixed-calls|"+k, fmt.Sprintf("in the call sequence [%s]: %s", seq, w), "mix", in) }
+	fail := func(k, w string) {
+		c.FailCase("mixed-calls|"+k, fmt.Sprintf("in the call sequence [%s]: %s", seq, w), "mix", in)
+	}
 	if c.Prop == "C08" {
 		// laws across an interleaved call: y = E(x); <other calls>; E(y) = x and E(x[:k]) = y[:k]
 		a := in.Steps[0]
